@@ -7,7 +7,8 @@
    histories, services, addresses and interfaces. *)
 From Coq Require Import List NArith ZArith Bool.
 From Verif Require Import Model.Net Model.Announcer Proofs.AnnouncerP Proofs.AnnouncerNdpP Proofs.AnnouncerTop
-  Model.AnnouncerExt Proofs.AnnouncerExtP.
+  Model.AnnouncerExt Proofs.AnnouncerExtP Proofs.AnnouncerLockP Model.AnnouncerJoin Proofs.AnnouncerJoinP.
+From Verif Require Model.Lock.
 Import ListNotations.
 Local Open Scope Z_scope.
 
@@ -81,7 +82,13 @@ Theorem C13_gratuitous_guard : forall ar nd us a, let s := reached ar nd us in
      In (snd x) (if fst x then arps s else ndps s)).
 Proof. exact t_gratuitous_guard. Qed.
 
-(* per NDP responder and solicited-node group: the watcher count equals the
+(* ASSUMPTION of the two exact NDP group theorems (C13_ndp_groups_balanced here,
+   C13_x_ndp_groups_balanced below), built into the model functions watch1 / unwatch1 and therefore
+   not a hypothesis of their statements: conn.JoinGroup NEVER FAILS.  Histories in which joins fail
+   are the subject of C13_j_groups below (Model/AnnouncerJoin.v; defect F30, fixed by 5ea1991).
+   conn.LeaveGroup failing only produces an error message in Go: the counters are not affected.
+
+   per NDP responder and solicited-node group: the watcher count equals the
    number of distinct announced IPv6 addresses mapping to the group, and the
    socket is a member of the group iff that number is positive *)
 Theorem C13_ndp_groups_balanced : forall ar nd us intf g, NoDup nd -> In intf nd ->
@@ -92,9 +99,11 @@ Theorem C13_ndp_groups_balanced : forall ar nd us intf g, NoDup nd -> In intf nd
   (forall i, In i (announced s) <-> exists svc a, holds s svc a /\ a_ip a = i).
 Proof. exact t_ndp_groups_balanced. Qed.
 
-(* the ARP responder replies iff the packet is a request, addressed to the
-   node or to broadcast, and the announcer answers for (target, interface);
-   for every announcer state, reachable or not *)
+(* DEFINITIONAL (an unfolding of the three tests of the model's arp_process / ndp_process, which
+   transcribe processRequest after a successful read; the content is the correspondence run that
+   sends every operation x destination x target through the real responder): the ARP responder
+   replies iff the packet is a request, addressed to the node or to broadcast, and the announcer
+   answers for (target, interface); for every announcer state, reachable or not *)
 Theorem C13_arp_reply_iff : forall s intf mac op dst t,
   arp_process s intf mac op dst t = DNone <->
   op = 1%N /\ (dst = bcast \/ dst = mac) /\ should_announce s t intf = DNone.
@@ -104,15 +113,43 @@ Theorem C13_ndp_reply_iff : forall s intf ns ll t,
   ndp_process s intf ns ll t = DNone <-> ns = true /\ ll = true /\ should_announce s t intf = DNone.
 Proof. exact ndp_reply_iff. Qed.
 
-(* concurrent requests: with every method one critical section, any schedule
-   [evs] (a merge of updates and requests) ends in the state of the updates run
-   in schedule order, and every request is answered from the state reached by
-   a prefix of the updates *)
-Theorem C13_rw_atomic : forall evs s0,
+(* "holds while announcements are changed concurrently with incoming requests" — PARTIAL, in two steps.
+
+   (1) BY DEFINITION of [exec] (one event = one step of the state) a schedule of updates and
+   requests ends in the state of the updates in schedule order and answers every request from a
+   prefix of the updates: the theorem only equates two presentations of the same sequential
+   fold.  It states what the Go oracle / trace validation of the concurrent harness compare
+   against; it proves nothing about locks. *)
+Theorem C13_rw_serial_by_definition : forall evs s0,
   exec evs s0 = (run (updates evs) s0, serial_answers evs [] s0) /\
   forall ans, In ans (snd (exec evs s0)) ->
     exists pre post q, updates evs = pre ++ post /\ ans = ask (run pre s0) q.
 Proof. exact t_rw_atomic. Qed.
+
+(* (2) at the level of the lock: in the reader/writer machine of Model/Lock.v (Lock / RLock, steps
+   inside the sections, Unlock / RUnlock interleaved arbitrarily, readers may overlap) instantiated
+   with THIS model's functions — writer k is one section performing [apply_upd _ (us k)], reader k
+   one section computing [ask _ (qs k)] — every answer is [ask] on the state left by a prefix, in
+   lock-acquisition order, of the COMPLETE updates, and outside writer sections the state is the
+   serial run.  What remains outside Coq: that each Go method IS such a section
+   (announcer_methods_are_critical_sections, decided on the facts regenerated from announcer.go for
+   SetBalancer, DeleteBalancer, shouldAnnounce, gratuitous, AnnounceName — not for updateInterfaces,
+   GetStatus, GetInterfaces) and that sync.RWMutex behaves like the machine. *)
+Theorem C13_rw_lock_level : forall (us : nat -> upd) (qs : nat -> query) s0 h c,
+  let wb := fun k => [fun s => apply_upd s (us k)] in
+  let rq := fun k s => ask s (qs k) in
+  Lock.rwinit st answer s0 h -> Lock.rwsteps st answer wb rq (Lock.mk_rwconfig st answer s0 h []) c ->
+  (forall i a, Lock.rths st answer c i = Lock.RGot st answer a \/ Lock.rths st answer c i = Lock.RDone st answer a ->
+     exists k, a = ask (Lock.serial st wb (skipn k (Lock.rorder st answer c)) s0) (qs i)) /\
+  ((forall i, ~ Lock.writer_in st answer (Lock.rths st answer c i)) ->
+   Lock.rsigma st answer c = Lock.serial st wb (Lock.rorder st answer c) s0).
+Proof. exact t_rw_lock_level. Qed.
+
+(* DeleteBalancer removes exactly the service's entries (the announce side is in C13_announce): with
+   the two, [holds] is pinned down as "currently announced" by recursion over the history *)
+Theorem C13_withdraw_frame : forall ar nd us name svc a, let s := reached ar nd us in
+  holds (delete_balancer name s) svc a <-> svc <> name /\ holds s svc a.
+Proof. intros ar nd us name svc a s. apply holds_delete. apply reached_inv. Qed.
 
 (* ------------------------------------------------------------------------------------------
    The rest of announcer.go (Model/AnnouncerExt.v): control flow of the loops, the spam loop,
@@ -120,15 +157,20 @@ Proof. exact t_rw_atomic. Qed.
    DeleteBalancer / requests ([xrun evs (xinit ar nd)], evs an arbitrary event list).
    ------------------------------------------------------------------------------------------ *)
 
-(* DeleteBalancer and gratuitous transcribed statement by statement, loops with their
-   continue / return, are the functions all theorems above speak about *)
+(* MODEL = MODEL (no link to Go by themselves): the statement-by-statement transcriptions of
+   DeleteBalancer and gratuitous, loops with their continue / return through [for_each], compute the
+   same as the compact functions of Model/Announcer.v all theorems above speak about.  What this
+   buys: the compact model may be read as the loop-level code; the link to Go is the correspondence
+   run plus announcer_skeleton_matches (which loops exist and how they are left). *)
 Theorem C13_delete_transcription : forall name s, delete_balancer_t name s = delete_balancer name s.
 Proof. exact delete_balancer_t_eq. Qed.
 
 Theorem C13_gratuitous_transcription : forall s a, gratuitous_t s a = gratuitous s a.
 Proof. exact gratuitous_t_eq. Qed.
 
-(* ... and the same loops with `return` where the code says `continue` are NOT: withdrawing one of two
+(* ([_refuted] here and in C13_gratuitous_return_refuted / C13_x_ndp_groups_balanced_prefix_refuted is
+   about a MUTANT or PRE-FIX model, not about the faithful one.)
+   ... and the same loops with `return` where the code says `continue` are NOT: withdrawing one of two
    services sharing an address leaves the service listed and the count wrong (seeded C13-4 / C09-4);
    a sweep that returns at the first uncovered responder skips the covered ones behind it *)
 Theorem C13_delete_return_refuted :
@@ -154,32 +196,42 @@ Theorem C13_x_state : forall ar nd evs, let s := base (xrun evs (xinit ar nd)) i
   (forall i intf, should_announce s i intf = DAnnounceIP <-> forall svc a, holds s svc a -> a_ip a <> i).
 Proof. exact t_x_state. Qed.
 
-(* every unsolicited packet any step sends is for an address that an announced service holds at
-   that moment, on a responder that exists at that moment *)
-Theorem C13_x_unsolicited_sound : forall ar nd evs e y, let x := xrun evs (xinit ar nd) in
-  In y (sent (xstep x e)) ->
-  In y (sent x) \/
-  ((exists svc b, holds (base x) svc b /\ a_ip b = snd y) /\
-   In (snd (fst y)) (if fst (fst y) then arps (base x) else ndps (base x))).
-Proof. exact t_x_unsolicited_sound. Qed.
+(* the packet log only grows, and every packet a step APPENDS (multiplicities count: a packet equal to
+   an earlier one is a new element of the suffix) is for an address that an announced service holds
+   at that moment, on a responder that exists at that moment *)
+Theorem C13_x_unsolicited_sound : forall ar nd evs e, let x := xrun evs (xinit ar nd) in
+  exists new, sent (xstep x e) = (sent x ++ new)%list /\
+    forall y, In y new ->
+      (exists svc b, holds (base x) svc b /\ a_ip b = snd y) /\
+      In (snd (fst y)) (if fst (fst y) then arps (base x) else ndps (base x)).
+Proof. exact t_x_unsolicited_sound_app. Qed.
 
 (* after DeleteBalancer of the last holder of i: whatever the spam loop has queued or is still
    repeating, whatever is rescanned, and until i is announced again — no answer on any interface,
-   no ARP reply to any packet, and NO further unsolicited announcement for i *)
+   no ARP reply to any packet, and NO further unsolicited announcement for i: everything appended
+   to the packet log from then on is for other addresses *)
 Theorem C13_x_withdraw_last : forall ar nd evs name i evs', let x := xrun evs (xinit ar nd) in
   (forall svc a, holds (base x) svc a -> a_ip a = i -> svc = name) ->
   Forall (not_set_of i) evs' ->
   let x' := xrun evs' (xstep x (XDel name)) in
   (forall intf, should_announce (base x') i intf = DAnnounceIP) /\
   (forall intf mac op dst, arp_process (base x') intf mac op dst i <> DNone) /\
-  (forall y, In y (sent x') -> snd y = i -> In y (sent x)).
-Proof. exact t_x_withdraw_last. Qed.
+  (exists new, sent x' = (sent x ++ new)%list /\ forall y, In y new -> snd y <> i).
+Proof. exact t_x_withdraw_last_app. Qed.
+
+(* the log is really a list with repetitions: the same address announced, received by the loop and
+   repeated at a tick is logged twice *)
+Example C13_x_sent_counts_repetitions :
+  let a := mk_adv (V4 1) true [] in
+  sent (xrun [XSet 1 a; XRecv; XTick (fun _ => false)] (xinit [1%N] [])) = [((true, 1%N), V4 1); ((true, 1%N), V4 1)].
+Proof. vm_compute. reflexivity. Qed.
 
 (* NDP groups, for ALL interleavings including rescans that create and close responders (the
    responder sets found have no duplicates: keys of a.ndps): on every responder that exists, the
    watcher counts equal the number of distinct announced IPv6 addresses per group, the socket is
    a member iff that number is positive, and once no announced address maps to a group it has
-   been LEFT.  Holds since fix 437595c (defect F29): a new responder Watches what is in use. *)
+   been LEFT.  Holds since fix 437595c (defect F29): a new responder Watches what is in use.
+   Same ASSUMPTION as C13_ndp_groups_balanced: JoinGroup never fails (failing joins: C13_j_groups). *)
 Theorem C13_x_ndp_groups_balanced : forall ar nd evs intf g, NoDup nd -> Forall wf_ev evs ->
   let s := base (xrun evs (xinit ar nd)) in
   In intf (ndps s) ->
@@ -201,6 +253,49 @@ Example C13_x_late_responder_joined :
   let s := base (xrun [XSet 1 (mk_adv (V6 1193046) true []); XRescan [] [1%N]] (xinit [] [])) in
   grp s 1 1193046 = 1 /\ mem s 1 1193046 = 1.
 Proof. exact late_responder_joined. Qed.
+
+(* ------------------------------------------------------------------------------------------
+   Multicast joins that FAIL (Model/AnnouncerJoin.v): the outcome of conn.JoinGroup on every
+   responder is an argument of each announce step ([JSet name a jok], any function jok).
+   ------------------------------------------------------------------------------------------ *)
+
+(* for every history with arbitrary join outcomes, every responder and group: the watcher count stays
+   between 0 and the number n of distinct announced IPv6 addresses of the group; the socket is a
+   member of the group iff the count is positive; if every join of the history succeeded the count
+   is exactly n; and when no announced address maps to the group any more the count is 0 and the
+   group has been left (nothing leaks, nothing goes negative: the next announcement joins again).
+   What is NOT claimed, because it is not true of the code: that an address whose own join failed
+   is listened for — it is only once a later Watch of its group succeeds (another address of the
+   group, or the address itself after a withdraw), and withdrawing an address whose join had
+   failed decrements the count that other addresses of the group built up. *)
+Theorem C13_j_groups : forall ar nd us intf g, NoDup nd -> In intf nd ->
+  let s := runj us (init ar nd) in
+  let n := Z.of_nat (length (filter (in_group g) (announced s))) in
+  0 <= grp s intf g <= n /\
+  mem s intf g = (if 0 <? grp s intf g then 1 else 0) /\
+  (all_joined nd us = true -> grp s intf g = n) /\
+  (n = 0 -> grp s intf g = 0 /\ mem s intf g = 0).
+Proof. exact t_j_groups. Qed.
+
+(* join failures do not touch services, reference counts and answers: everything above about
+   [reached] applies to the history with the outcomes erased *)
+Theorem C13_j_same_services : forall ar nd us,
+  let s := runj us (init ar nd) in let t := reached ar nd (map erase us) in
+  ips s = ips t /\ refcnt s = refcnt t /\ (forall i intf, should_announce s i intf = should_announce t i intf).
+Proof. exact t_j_same_services. Qed.
+
+(* regression of the model for F30: BEFORE fix 5ea1991 Unwatch decremented unconditionally
+   ([runj_prefix] withdraws with the old delete_balancer): one failed join, the withdrawal (count -1)
+   and a new announcement whose join would succeed leave the address announced, the count 0 and the
+   group not joined; with the fix the same history ends joined *)
+Theorem C13_j_prefix_refuted :
+  let a := mk_adv (V6 1193046) true [] in
+  let us := [JSet 1 a (fun _ => false); JDel 1; JSet 1 a (fun _ => true)] in
+  let s := runj_prefix us (init [] [1%N]) in
+  should_announce s (V6 1193046) 1 = DNone /\ rc s (V6 1193046) = 1 /\ grp s 1 1193046 = 0 /\ mem s 1 1193046 = 0 /\
+  grp (runj_prefix [JSet 1 a (fun _ => false); JDel 1] (init [] [1%N])) 1 1193046 = -1 /\
+  grp (runj us (init [] [1%N])) 1 1193046 = 1 /\ mem (runj us (init [] [1%N])) 1 1193046 = 1.
+Proof. exact j_prefix_refuted. Qed.
 
 (* non-vacuity: two services share 10.0.0.1 (one on interface 1 only), a third
    address is IPv6; withdraw one, then the other *)
